@@ -575,9 +575,65 @@ def check_help(ctx, br):
         if isinstance(n, ast.Compare) and dotted(n.left) == "plot_type" and isinstance(n.ops[0], ast.In):
             listed = set(const(n.comparators[0]) or [])
     ctx.ob("C13.4", "verif.driver.run", listed is not None and listed == types, "-type values in the help = values accepted", msg="help lists %s, parser accepts %s" % (sorted(types), sorted(listed or [])))
-    for t in sorted(types - {"plot"}):
-        ctx.ob("C13.4", "verif.driver.run", ("plot_type == '%s'" % t) in src, "-type %s is dispatched" % t, msg="-type %s is accepted but not dispatched" % t)
+    disp = _type_dispatch(prog, run, sorted(types))
+    for t in sorted(types):
+        want_call, want_rank = TYPE_DISPATCH.get(t, (None, None))
+        if disp is None or want_call is None:
+            if t != "plot":
+                ctx.ob("C13.4", "verif.driver.run", ("plot_type == '%s'" % t) in src, "-type %s is dispatched" % t, msg="-type %s is accepted but not dispatched" % t)
+            continue
+        calls_, rank = disp[t]
+        ok = calls_ == [want_call] and rank == want_rank
+        ctx.ob("C13.4", "verif.driver.run", ok, "-type %s calls pl.%s%s and nothing else" % (t, want_call, " with show_rank set" if want_rank else ""),
+               msg="-type %s ends in the calls %s (show_rank %s) instead of pl.%s (show_rank %s)" % (t, calls_, "set" if rank else "not set", want_call, "set" if want_rank else "not set"),
+               expected=[want_call, want_rank], found=[calls_, rank])
     return documented
+
+
+# what the help of -type promises: 'rank' and 'maprank' are the plot / map of the ranks of the scores
+TYPE_DISPATCH = {"plot": ("plot", False), "text": ("text", False), "csv": ("csv", False), "map": ("map", False), "maprank": ("map", True),
+                 "rank": ("plot_rank", True), "impact": ("plot_impact", False), "mapimpact": ("plot_mapimpact", False)}
+_ENTRY_POINTS = ("plot", "text", "csv", "map", "plot_rank", "plot_impact", "plot_mapimpact")
+
+
+def _type_dispatch(prog, run, types):
+    """By value: the top-level statements of driver.run after the output object exists that read plot_type (and what they define) are
+    folded once per accepted -type literal with everything else symbolic; returns {type: ([entry points of pl called], show_rank set)}
+    - however the dispatch is spelled (elif chain, membership tests, a table).  None when that slice cannot be folded."""
+    m = prog.module("verif.driver")
+    last_pl = -1
+    for i, st in enumerate(run.body):
+        if any(isinstance(n, ast.Name) and n.id == "pl" and isinstance(n.ctx, ast.Store) for n in ast.walk(st)):
+            last_pl = i
+    if last_pl < 0:
+        return None
+    keep = []
+    tainted = {"plot_type"}
+    for st in run.body[last_pl + 1:]:
+        used = set(n.id for n in ast.walk(st) if isinstance(n, ast.Name) and isinstance(n.ctx, ast.Load))
+        if "plot_type" in used:
+            keep.append(st)
+    if not keep:
+        return None
+    out = {}
+    for t in types:
+        ev = symeval.Evaluator(m)
+        ev.merge_ifs = True
+        ev.loop_mode = "unroll2"
+        ev.record = True
+        try:
+            ev.run_stmts(keep, env={"plot_type": form.apply("str:" + repr(t), [])})
+        except (symeval.Undecided, AnalysisError, RecursionError):
+            return None
+        calls_ = [e["name"][3:] for e in ev.events
+                  if e["kind"] == "call" and e["name"].startswith("pl.") and e["name"][3:] in _ENTRY_POINTS]
+        rank = False
+        for e in ev.events:
+            if e["kind"] in ("assign", "store") and (e.get("name") == "pl.show_rank" or (e.get("root") == "pl" and "show_rank" in str(e.get("index", "")) + str(e.get("attr", "")))):
+                v = e.get("value")
+                rank = isinstance(v, Rat) and v.key() in ("1", "$True")
+        out[t] = (calls_, rank)
+    return out
 
 
 def run(ctx):
